@@ -3,6 +3,7 @@ package gen
 import (
 	"fmt"
 	"math/rand"
+	"strings"
 )
 
 // Typed random Datalog programs (JSON-serialisable).
@@ -36,7 +37,7 @@ type ProgOpts struct {
 	// Reducers allowed in do-rules
 	Reducers []string
 	// FnInAtoms allows function expressions as arguments of body atoms / heads
-	FnInAtoms bool
+	FnInAtoms            bool
 	NoRecursionThroughFn bool
 	// DoWildcards lets aggregating rules with multiplicity-insensitive reducers use wildcards for unused columns
 	DoWildcards bool
@@ -333,6 +334,64 @@ func randRule(r *rand.Rand, o ProgOpts, p ProgramV, head PredSig, aggPreds map[s
 			}
 		}
 	}
+	if o.FnInAtoms && r.Intn(5) == 0 {
+		// a positive atom one of whose columns is given by a function expression over variables that
+		// already have a value (an input column); it goes behind the atoms that bind them
+		var withCol []PredSig
+		for _, q := range cands {
+			for _, s := range q.Sorts {
+				if (s == "num" && len(c.vars["num"]) > 0) || (s == "list" && len(c.vars["num"]) > 0) {
+					withCol = append(withCol, q)
+					break
+				}
+			}
+		}
+		if len(withCol) > 0 {
+			q := withCol[r.Intn(len(withCol))]
+			l := LitV{K: "atom", Pred: q.Name}
+			done := false
+			var late []func()
+			for _, s := range q.Sorts {
+				x1 := ""
+				if len(c.vars["num"]) > 0 {
+					x1 = c.vars["num"][r.Intn(len(c.vars["num"]))]
+				}
+				switch {
+				case !done && s == "num" && x1 != "":
+					done = true
+					switch r.Intn(3) {
+					case 0:
+						l.Args = append(l.Args, FnT("fn:plus", VarT(x1), ConstT(Num(1))))
+					case 1:
+						l.Args = append(l.Args, FnT("fn:minus", VarT(x1), c.boundOrConst("num", 50)))
+					default:
+						l.Args = append(l.Args, FnT("fn:mult", VarT(x1), ConstT(Num(2))))
+					}
+				case !done && s == "list" && x1 != "":
+					done = true
+					switch r.Intn(3) {
+					case 0:
+						l.Args = append(l.Args, FnT("fn:list", VarT(x1)))
+					case 1:
+						l.Args = append(l.Args, FnT("fn:list", VarT(x1), c.boundOrConst("num", 50)))
+					default:
+						l.Args = append(l.Args, FnT("fn:list:cons", VarT(x1), ConstT(ListV())))
+					}
+				case r.Intn(3) == 0:
+					v := c.fresh(s)
+					l.Args = append(l.Args, VarT(v))
+					s := s
+					late = append(late, func() { c.bind(s, v) })
+				default:
+					l.Args = append(l.Args, c.boundOrConst(s, 30))
+				}
+			}
+			for _, f := range late {
+				f()
+			}
+			post = append(post, l)
+		}
+	}
 	// head
 	headL := LitV{K: "atom", Pred: head.Name}
 	for _, s := range head.Sorts {
@@ -354,6 +413,20 @@ func randRule(r *rand.Rand, o ProgOpts, p ProgramV, head PredSig, aggPreds map[s
 				x1 := c.vars["num"][r.Intn(len(c.vars["num"]))]
 				x2 := c.boundOrConst("num", 50)
 				cl.Transforms = [][]StmtV{{{Var: "Z", Fn: FnT("fn:plus", VarT(x1), x2)}}}
+				if r.Intn(3) == 0 {
+					// a chain: the second statement uses what the first defines
+					x3 := c.boundOrConst("num", 50)
+					if !o.Unguarded && x3.K == "var" {
+						extras = append(extras, LitV{K: "atom", Pred: ":lt", Args: []TermV{x3, ConstT(Num(4))}})
+					}
+					cl.Transforms[0] = append(cl.Transforms[0], StmtV{Var: "Z2", Fn: FnT("fn:plus", VarT("Z"), x3)})
+					for j := i + 1; j < len(head.Sorts); j++ {
+						if head.Sorts[j] == "num" && r.Intn(2) == 0 {
+							cl.Head.Args[j] = VarT("Z2")
+							break
+						}
+					}
+				}
 				if !o.Unguarded {
 					extras = append(extras, LitV{K: "atom", Pred: ":lt", Args: []TermV{VarT(x1), ConstT(Num(4))}})
 					if x2.K == "var" {
@@ -370,7 +443,13 @@ func randRule(r *rand.Rand, o ProgOpts, p ProgramV, head PredSig, aggPreds map[s
 	all := append(append(append([]LitV{}, body...), post...), extras...)
 	// extras may mention variables bound only by post literals: they are after them now
 	if r.Intn(100) < o.Shuffle {
-		r.Shuffle(len(all), func(i, j int) { all[i], all[j] = all[j], all[i] })
+		sh := append([]LitV{}, all...)
+		r.Shuffle(len(sh), func(i, j int) { sh[i], sh[j] = sh[j], sh[i] })
+		// a function expression in a positive atom is an input: it stays behind what gives its variables a value
+		// (analysis accepts the other orders too and evaluation then fails: finding F37, the subject of C04)
+		if len(FnAtomsWithoutValue(sh)) == 0 {
+			all = sh
+		}
 	}
 	cl.Body = all
 	return cl
@@ -396,6 +475,28 @@ func randDoRule(r *rand.Rand, o ProgOpts, p ProgramV, head PredSig, aggPreds map
 	if o.Compare && len(c.vars["num"]) > 0 && r.Intn(3) == 0 {
 		a := VarT(c.vars["num"][r.Intn(len(c.vars["num"]))])
 		body = append(body, LitV{K: "atom", Pred: ":le", Args: []TermV{a, ConstT(Num(int64(r.Intn(6))))}})
+	}
+	if len(c.vars["num"]) > 0 && r.Intn(3) == 0 {
+		// a variable that only an equality defines, in either orientation; it can become a group key or a reducer argument
+		x1 := c.vars["num"][r.Intn(len(c.vars["num"]))]
+		z := c.fresh("num")
+		zt := VarT(z)
+		var fn TermV
+		switch r.Intn(3) {
+		case 0:
+			fn = FnT("fn:plus", VarT(x1), ConstT(Num(int64(r.Intn(3)))))
+		case 1:
+			fn = FnT("fn:mult", VarT(x1), ConstT(Num(2)))
+		default:
+			fn = ConstT(Num(int64(r.Intn(4))))
+		}
+		if r.Intn(2) == 0 {
+			body = append(body, LitV{K: "eq", L: &zt, R: &fn})
+		} else {
+			body = append(body, LitV{K: "eq", L: &fn, R: &zt})
+		}
+		// more likely than the others to be used below
+		c.vars["num"] = append([]string{z, z}, c.vars["num"]...)
 	}
 	// head: last column is the aggregate, earlier columns are group keys
 	nk := len(head.Sorts) - 1
@@ -599,4 +700,87 @@ func RandNegKnotProgram(r *rand.Rand) ProgramV {
 		}
 	}
 	return p
+}
+
+// FnAtomsWithoutValue simulates left-to-right evaluation of a rule body and returns the positions of
+// positive atoms one of whose arguments is a function expression over a variable that has no value at that
+// point (positive atoms bind their variable arguments, equalities and the matching built-ins bind their outputs).
+func FnAtomsWithoutValue(body []LitV) []int {
+	bound := map[string]bool{}
+	var vars func(t TermV, out map[string]bool)
+	vars = func(t TermV, out map[string]bool) {
+		if t.K == "var" && t.Name != "_" {
+			out[t.Name] = true
+		}
+		for _, a := range t.Args {
+			vars(a, out)
+		}
+	}
+	var wild func(t TermV) bool
+	wild = func(t TermV) bool {
+		if t.K == "var" && t.Name == "_" {
+			return true
+		}
+		for _, a := range t.Args {
+			if wild(a) {
+				return true
+			}
+		}
+		return false
+	}
+	has := func(t TermV) bool {
+		if wild(t) {
+			return false // a wildcard is not a value
+		}
+		vs := map[string]bool{}
+		vars(t, vs)
+		for v := range vs {
+			if !bound[v] {
+				return false
+			}
+		}
+		return true
+	}
+	bind := func(t TermV) {
+		if t.K == "var" && t.Name != "_" {
+			bound[t.Name] = true
+		}
+	}
+	var bad []int
+	for i, l := range body {
+		switch l.K {
+		case "atom":
+			if strings.HasPrefix(l.Pred, ":") {
+				switch l.Pred {
+				case ":match_cons", ":match_pair":
+					if len(l.Args) == 3 && has(l.Args[0]) {
+						bind(l.Args[1])
+						bind(l.Args[2])
+					}
+				case ":list:member":
+					if len(l.Args) == 2 && has(l.Args[1]) {
+						bind(l.Args[0])
+					}
+				}
+				continue
+			}
+			for _, a := range l.Args {
+				if a.K == "fn" && !has(a) {
+					bad = append(bad, i)
+					break
+				}
+			}
+			for _, a := range l.Args {
+				bind(a)
+			}
+		case "eq":
+			if has(*l.L) {
+				bind(*l.R)
+			}
+			if has(*l.R) {
+				bind(*l.L)
+			}
+		}
+	}
+	return bad
 }
